@@ -9,31 +9,33 @@ Definition ones (m n : nat) : zop := Dense (mkarr m n (fun _ _ => z 1)).
 (* exact_diag_ragged_chunk: for EVERY square well-formed operator of size 101 (150, 199, 230) the generic exact algorithm
    raises on the first off-diagonals, because ragged holds - no computation on the operator is involved *)
 Theorem exact_diag_ragged_chunk_refuted : forall (e : zop), wf e = true -> shape e = (101, 101)%nat ->
-  exact_diag 100 101 (fun _ X => matmat e X) 1 = None /\ exact_diag 100 101 (fun _ X => matmat e X) (-2) = Some (true_diag 101 101 (den e) (-2)).
-Proof. intros e Hwf Hs. split.
+  exact_diag false 100 101 (fun _ X => matmat e X) 1 = None /\ exact_diag false 100 101 (fun _ X => matmat e X) (-2) = Some (true_diag 101 101 (den e) (-2))
+  /\ exact_diag true 100 101 (fun _ X => matmat e X) 1 = Some (true_diag 101 101 (den e) 1).
+Proof. intros e Hwf Hs. split; [|split].
   - apply (exact_diag_none_iff e 100 101 1 Hwf Hs); [lia|lia|]. vm_compute. reflexivity.
-  - apply (exact_diag_total e 100 101 (-2) Hwf Hs); [lia|lia|]. vm_compute. reflexivity. Qed.
+  - apply (exact_diag_total e 100 101 (-2) Hwf Hs); [lia|lia|]. vm_compute. reflexivity.
+  - apply (exact_diag_fixed_total e 100 101 1 Hwf Hs); lia. Qed.
 Theorem ragged_witnesses : ragged 100 101 1 = true /\ ragged 100 150 (-1) = true /\ ragged 100 150 (-75) = true /\ ragged 100 199 (-2) = true
   /\ ragged 100 230 69 = true /\ ragged 100 230 70 = false /\ ragged 100 201 (-1) = false /\ ragged 100 200 7 = false /\ ragged 100 99 (-98) = false.
 Proof. vm_compute. repeat split. Qed.
-Theorem exact_diag_ragged_on_diag_rule : exists (e : zop), dwf e = true /\ shape e = (101, 101)%nat /\ diag_rule 100 AExact e 1 = inl DValue.
+Theorem exact_diag_ragged_on_diag_rule : exists (e : zop), dwf dpinned e = true /\ shape e = (101, 101)%nat /\ diag_rule dpinned 100 AExact e 1 = inl DValue.
 Proof. exists (Prod [Ident 101; Ident 101]). split; [vm_compute; reflexivity|]. split; [vm_compute; reflexivity|].
-  change (diag_rule 100 AExact (Prod [Ident 101; Ident 101]) 1) with (generic_diag 100 AExact (Prod [Ident 101; Ident 101] : zop) 1).
+  change (diag_rule dpinned 100 AExact (Prod [Ident 101; Ident 101]) 1) with (generic_diag dpinned 100 AExact (Prod [Ident 101; Ident 101] : zop) 1).
   unfold generic_diag. change (fst (shape (Prod [Ident 101; Ident 101] : zop))) with 101%nat. change (snd (shape (Prod [Ident 101; Ident 101] : zop))) with 101%nat.
-  rewrite Nat.eqb_refl.
+  rewrite Nat.eqb_refl. cbn [d_ragged_fixed dpinned].
   rewrite (proj2 (exact_diag_none_iff (Prod [Ident 101; Ident 101] : zop) 100 101 1 eq_refl eq_refl ltac:(lia) ltac:(lia))); [reflexivity|].
   vm_compute. reflexivity. Qed.
 
 (* kron_diag_nonsquare_factors: a 6x6 Kronecker product of a 2x3 and a 3x2 factor: the rule returns 4 entries *)
-Theorem kron_diag_nonsquare_refuted : exists (e : zop) d, wf e = true /\ shape e = (6, 6)%nat /\ diag_rule 100 AExact e 0 = inr d
-  /\ length d = 4%nat /\ length (true_diag 6 6 (den e) 0) = 6%nat.
+Theorem kron_diag_nonsquare_refuted : exists (e : zop) d, wf e = true /\ shape e = (6, 6)%nat /\ diag_rule dpinned 100 AExact e 0 = inr d
+  /\ length d = 4%nat /\ length (true_diag 6 6 (den e) 0) = 6%nat /\ diag_rule drepaired 100 AExact e 0 = inl DAssert.
 Proof. exists (Kron [ones 2 3; ones 3 2]). eexists. split; [vm_compute; reflexivity|]. split; [vm_compute; reflexivity|].
-  split; [vm_compute; reflexivity|]. split; vm_compute; reflexivity. Qed.
+  split; [vm_compute; reflexivity|]. split; [vm_compute; reflexivity|]. split; vm_compute; reflexivity. Qed.
 (* blockdiag_diag_nonsquare_blocks: blocks 2x3 and 3x2 (5x5 overall): the rule returns 4 entries *)
-Theorem blockdiag_diag_nonsquare_refuted : exists (e : zop) d, wf e = true /\ shape e = (5, 5)%nat /\ diag_rule 100 AExact e 0 = inr d
-  /\ length d = 4%nat /\ length (true_diag 5 5 (den e) 0) = 5%nat.
+Theorem blockdiag_diag_nonsquare_refuted : exists (e : zop) d, wf e = true /\ shape e = (5, 5)%nat /\ diag_rule dpinned 100 AExact e 0 = inr d
+  /\ length d = 4%nat /\ length (true_diag 5 5 (den e) 0) = 5%nat /\ diag_rule drepaired 100 AExact e 0 = inl DAssert.
 Proof. exists (BDiag [(ones 2 3, 1%nat); (ones 3 2, 1%nat)]). eexists. split; [vm_compute; reflexivity|]. split; [vm_compute; reflexivity|].
-  split; [vm_compute; reflexivity|]. split; vm_compute; reflexivity. Qed.
+  split; [vm_compute; reflexivity|]. split; [vm_compute; reflexivity|]. split; vm_compute; reflexivity. Qed.
 
 (* the hypotheses of diag_rule_agrees / trace_correct are satisfiable on a nested tree of every structural kind and a generic part *)
 Definition D22 : zop := Dense (of_list_mn 2 2 [[z 1; z 2]; [z 3; z 4]]).
@@ -41,9 +43,9 @@ Definition Ex : zop :=
   Sum [Kron [D22; Diag 2 (of_vec [z 5; (0%Z, 1%Z)])];
        BDiag [(Prod [D22; Transp D22], 1%nat); (Scal (z 2) 1, 2%nat)];
        Kron [Ident 2; Sum [D22; Ident 2]]].
-Example ex_dwf : dwf Ex = true /\ shape Ex = (4, 4)%nat.
+Example ex_dwf : dwf dpinned Ex = true /\ dwf drepaired Ex = true /\ shape Ex = (4, 4)%nat.
+Proof. repeat split; vm_compute; reflexivity. Qed.
+Example ex_diag : diag_rule dpinned 100 AExact Ex 0 = inr [z 12; (30%Z, 1%Z); z 24; (7%Z, 4%Z)] /\ diag_rule drepaired 100 default_auto Ex 1 = inl DAssert.
 Proof. split; vm_compute; reflexivity. Qed.
-Example ex_diag : diag_rule 100 AExact Ex 0 = inr [z 12; (30%Z, 1%Z); z 24; (7%Z, 4%Z)] /\ diag_rule 100 default_auto Ex 1 = inl DAssert.
-Proof. split; vm_compute; reflexivity. Qed.
-Example ex_trace : tdwf (Kron [D22; Prod [D22; D22]]) = true /\ trace_rule 100 AExact (Kron [D22; Prod [D22; D22]] : zop) = inr (z 145).
+Example ex_trace : tdwf dpinned (Kron [D22; Prod [D22; D22]]) = true /\ trace_rule dpinned 100 AExact (Kron [D22; Prod [D22; D22]] : zop) = inr (z 145).
 Proof. split; vm_compute; reflexivity. Qed.
